@@ -369,3 +369,5 @@ def run(chk):
     ew_relations(chk, mod, lib)
     from . import C20b
     C20b.run(chk)
+    from . import C20c
+    C20c.run(chk)
